@@ -18,3 +18,8 @@ pub use iroh::{EndpointAddr, RelayUrl};
 pub use api::{Endpoint, EndpointError};
 pub use builder::Builder;
 pub use config::IrohConfig;
+
+/// Verification-only access to the crate-private address lookup which publishes our own
+/// transport info into the address book.
+#[cfg(p2panda_p2panda_verif)]
+pub use discovery::AddressBookDiscovery;
